@@ -3,6 +3,7 @@ package detector
 import (
 	"github.com/makiuchi-d/gozxing"
 	"github.com/makiuchi-d/gozxing/common/util"
+	"github.com/makiuchi-d/gozxing/verifhook"
 )
 
 const (
@@ -162,6 +163,7 @@ func (this *WhiteRectangleDetector) Detect() ([]gozxing.ResultPoint, error) {
 
 	}
 
+	verifhook.Touch("wrd.rect", [5]interface{}{left, right, up, down, sizeExceeded}, false)
 	if !sizeExceeded {
 
 		maxSize := right - left
